@@ -346,6 +346,7 @@ func runHarness(prog *ssa.Program, pkgs interface{}, spec sym.HarnessSpec, tier 
 		CrossN:    spec.TierOptInt(tier, "cross", 0),
 		Verbose:   verbose,
 		Tier:      tier,
+		NoMerge:   spec.TierOptInt(tier, "merge", 1) == 0,
 	}
 	budget := spec.TierOptInt(tier, "budget", 0)
 	if budget == 0 {
@@ -355,7 +356,10 @@ func runHarness(prog *ssa.Program, pkgs interface{}, spec sym.HarnessSpec, tier 
 			budget = 1500
 		}
 	}
-	cfg.Deadline = time.Now().Add(time.Duration(budget) * time.Second)
+	// the budget bounds runaway exploration; it is stated for an otherwise idle
+	// machine and stretched when the machine is oversubscribed, so that the
+	// verdict does not depend on what else is running
+	cfg.Deadline = time.Now().Add(time.Duration(float64(budget)*sym.LoadFactor()) * time.Second)
 	eng, err := sym.NewEngine(prog, cfg)
 	if err != nil {
 		res.Err = err.Error()
